@@ -153,7 +153,7 @@ harness! {
 // 16-bit types
 
 harness! {
-    /// kind=bounded tier=quick bound="u16: every valid UTF-8 string<=6 bytes (all 65536 values, one extra digit / leading zero, '+', letters, non-ASCII)"
+    /// kind=bounded tier=thorough bound="u16: every valid UTF-8 string<=6 bytes (all 65536 values, one extra digit / leading zero, '+', letters, non-ASCII)"
     #[kani::unwind(10)]
     #[kani::stub(konst_kernel::string::non_char_boundary_panic, crate::hlib::stub_non_char_boundary_panic)]
     fn c12_whole_u16(s) {
@@ -168,7 +168,7 @@ harness! {
 }
 
 harness! {
-    /// kind=bounded tier=quick bound="i16: every valid UTF-8 string<=6 bytes (all 65536 values, '-32768', '-32769', '-0', '+', letters, non-ASCII)"
+    /// kind=bounded tier=thorough bound="i16: every valid UTF-8 string<=6 bytes (all 65536 values, '-32768', '-32769', '-0', '+', letters, non-ASCII)"
     #[kani::unwind(10)]
     #[kani::stub(konst_kernel::string::non_char_boundary_panic, crate::hlib::stub_non_char_boundary_panic)]
     fn c12_whole_i16(s) {
@@ -183,7 +183,7 @@ harness! {
 }
 
 harness! {
-    /// kind=bounded tier=quick bound="u16 prefix parsing: [-+]?digits of <=m bytes continued by arbitrary ASCII, total<=7 bytes, m symbolic"
+    /// kind=bounded tier=thorough bound="u16 prefix parsing: [-+]?digits of <=m bytes continued by arbitrary ASCII, total<=7 bytes, m symbolic"
     #[kani::unwind(11)]
     #[kani::stub(konst_kernel::string::non_char_boundary_panic, crate::hlib::stub_non_char_boundary_panic)]
     fn c12_prefix_u16(s) {
@@ -197,7 +197,7 @@ harness! {
 }
 
 harness! {
-    /// kind=bounded tier=quick bound="i16 prefix parsing: [-+]?digits of <=m bytes continued by arbitrary ASCII, total<=7 bytes, m symbolic"
+    /// kind=bounded tier=thorough bound="i16 prefix parsing: [-+]?digits of <=m bytes continued by arbitrary ASCII, total<=7 bytes, m symbolic"
     #[kani::unwind(11)]
     #[kani::stub(konst_kernel::string::non_char_boundary_panic, crate::hlib::stub_non_char_boundary_panic)]
     fn c12_prefix_i16(s) {
@@ -343,7 +343,7 @@ harness! {
 }
 
 harness! {
-    /// kind=bounded tier=quick bound="u32: sign in {none,'-','+'} followed by exactly 10 symbolic digits (u32::MAX has 10 digits)"
+    /// kind=bounded tier=thorough bound="u32: sign in {none,'-','+'} followed by exactly 10 symbolic digits (u32::MAX has 10 digits)"
     #[kani::unwind(14)]
     #[kani::stub(konst_kernel::string::non_char_boundary_panic, crate::hlib::stub_non_char_boundary_panic)]
     fn c12_wide_u32(s) {
@@ -366,7 +366,7 @@ harness! {
 }
 
 harness! {
-    /// kind=bounded tier=quick bound="i32: sign in {none,'-','+'}, optional extra leading '0' or '1', the first 7 digits of i32::MAX, 3 symbolic digits"
+    /// kind=bounded tier=thorough bound="i32: sign in {none,'-','+'}, optional extra leading '0' or '1', the first 7 digits of i32::MAX, 3 symbolic digits"
     #[kani::unwind(16)]
     #[kani::stub(konst_kernel::string::non_char_boundary_panic, crate::hlib::stub_non_char_boundary_panic)]
     fn c12_near_i32(s) {
@@ -411,7 +411,7 @@ harness! {
 }
 
 harness! {
-    /// kind=bounded tier=quick bound="u64: sign in {none,'-','+'}, optional extra leading '0' or '1', the first 17 digits of u64::MAX, 3 symbolic digits"
+    /// kind=bounded tier=thorough bound="u64: sign in {none,'-','+'}, optional extra leading '0' or '1', the first 17 digits of u64::MAX, 3 symbolic digits"
     #[kani::unwind(26)]
     #[kani::stub(konst_kernel::string::non_char_boundary_panic, crate::hlib::stub_non_char_boundary_panic)]
     fn c12_near_u64(s) {
@@ -427,7 +427,7 @@ harness! {
 }
 
 harness! {
-    /// kind=bounded tier=quick bound="u64: sign in {none,'-','+'} followed by exactly 20 symbolic digits (u64::MAX has 20 digits)"
+    /// kind=bounded tier=thorough bound="u64: sign in {none,'-','+'} followed by exactly 20 symbolic digits (u64::MAX has 20 digits)"
     #[kani::unwind(24)]
     #[kani::stub(konst_kernel::string::non_char_boundary_panic, crate::hlib::stub_non_char_boundary_panic)]
     fn c12_wide_u64(s) {
@@ -469,7 +469,7 @@ harness! {
 }
 
 harness! {
-    /// kind=bounded tier=quick bound="u128: sign in {none,'-','+'}, optional extra leading '0' or '1', the first 36 digits of u128::MAX, 3 symbolic digits"
+    /// kind=bounded tier=thorough bound="u128: sign in {none,'-','+'}, optional extra leading '0' or '1', the first 36 digits of u128::MAX, 3 symbolic digits"
     #[kani::unwind(45)]
     #[kani::stub(konst_kernel::string::non_char_boundary_panic, crate::hlib::stub_non_char_boundary_panic)]
     fn c12_near_u128(s) {
@@ -508,7 +508,7 @@ harness! {
 }
 
 harness! {
-    /// kind=bounded tier=quick bound="i128: sign in {none,'-','+'}, optional extra leading '0' or '1', the first 36 digits of i128::MAX, 3 symbolic digits"
+    /// kind=bounded tier=thorough bound="i128: sign in {none,'-','+'}, optional extra leading '0' or '1', the first 36 digits of i128::MAX, 3 symbolic digits"
     #[kani::unwind(45)]
     #[kani::stub(konst_kernel::string::non_char_boundary_panic, crate::hlib::stub_non_char_boundary_panic)]
     fn c12_near_i128(s) {
@@ -527,7 +527,7 @@ harness! {
 }
 
 harness! {
-    /// kind=bounded tier=quick bound="usize: sign in {none,'-','+'}, optional extra leading '0' or '1', the first 17 digits of usize::MAX, 3 symbolic digits"
+    /// kind=bounded tier=thorough bound="usize: sign in {none,'-','+'}, optional extra leading '0' or '1', the first 17 digits of usize::MAX, 3 symbolic digits"
     #[kani::unwind(26)]
     #[kani::stub(konst_kernel::string::non_char_boundary_panic, crate::hlib::stub_non_char_boundary_panic)]
     fn c12_near_usize(s) {
@@ -566,7 +566,7 @@ harness! {
 }
 
 harness! {
-    /// kind=bounded tier=quick bound="isize: sign in {none,'-','+'}, optional extra leading '0' or '1', the first 16 digits of isize::MAX, 3 symbolic digits"
+    /// kind=bounded tier=thorough bound="isize: sign in {none,'-','+'}, optional extra leading '0' or '1', the first 16 digits of isize::MAX, 3 symbolic digits"
     #[kani::unwind(25)]
     #[kani::stub(konst_kernel::string::non_char_boundary_panic, crate::hlib::stub_non_char_boundary_panic)]
     fn c12_near_isize(s) {
@@ -585,7 +585,7 @@ harness! {
 }
 
 harness! {
-    /// kind=bounded tier=quick bound="u32 prefix parsing: sign none or '-', the first 7 digits of u32::MAX, 3 symbolic digits, then one symbolic non-digit ASCII byte"
+    /// kind=bounded tier=thorough bound="u32 prefix parsing: sign none or '-', the first 7 digits of u32::MAX, 3 symbolic digits, then one symbolic non-digit ASCII byte"
     #[kani::unwind(16)]
     #[kani::stub(konst_kernel::string::non_char_boundary_panic, crate::hlib::stub_non_char_boundary_panic)]
     fn c12_prefix_near_u32(s) {
@@ -610,7 +610,7 @@ harness! {
 }
 
 harness! {
-    /// kind=bounded tier=quick bound="u64 prefix parsing: sign none or '-', the first 17 digits of u64::MAX, 3 symbolic digits, then one symbolic non-digit ASCII byte"
+    /// kind=bounded tier=thorough bound="u64 prefix parsing: sign none or '-', the first 17 digits of u64::MAX, 3 symbolic digits, then one symbolic non-digit ASCII byte"
     #[kani::unwind(26)]
     #[kani::stub(konst_kernel::string::non_char_boundary_panic, crate::hlib::stub_non_char_boundary_panic)]
     fn c12_prefix_near_u64(s) {
@@ -622,7 +622,7 @@ harness! {
 }
 
 harness! {
-    /// kind=bounded tier=quick bound="i64 prefix parsing: sign none or '-', the first 16 digits of i64::MAX, 3 symbolic digits, then one symbolic non-digit ASCII byte"
+    /// kind=bounded tier=thorough bound="i64 prefix parsing: sign none or '-', the first 16 digits of i64::MAX, 3 symbolic digits, then one symbolic non-digit ASCII byte"
     #[kani::unwind(25)]
     #[kani::stub(konst_kernel::string::non_char_boundary_panic, crate::hlib::stub_non_char_boundary_panic)]
     fn c12_prefix_near_i64(s) {
@@ -635,7 +635,7 @@ harness! {
 }
 
 harness! {
-    /// kind=bounded tier=quick bound="u128 prefix parsing: sign none or '-', the first 36 digits of u128::MAX, 3 symbolic digits, then one symbolic non-digit ASCII byte"
+    /// kind=bounded tier=thorough bound="u128 prefix parsing: sign none or '-', the first 36 digits of u128::MAX, 3 symbolic digits, then one symbolic non-digit ASCII byte"
     #[kani::unwind(45)]
     #[kani::stub(konst_kernel::string::non_char_boundary_panic, crate::hlib::stub_non_char_boundary_panic)]
     fn c12_prefix_near_u128(s) {
@@ -647,7 +647,7 @@ harness! {
 }
 
 harness! {
-    /// kind=bounded tier=quick bound="i128 prefix parsing: sign none or '-', the first 36 digits of i128::MAX, 3 symbolic digits, then one symbolic non-digit ASCII byte"
+    /// kind=bounded tier=thorough bound="i128 prefix parsing: sign none or '-', the first 36 digits of i128::MAX, 3 symbolic digits, then one symbolic non-digit ASCII byte"
     #[kani::unwind(45)]
     #[kani::stub(konst_kernel::string::non_char_boundary_panic, crate::hlib::stub_non_char_boundary_panic)]
     fn c12_prefix_near_i128(s) {
@@ -660,7 +660,7 @@ harness! {
 }
 
 harness! {
-    /// kind=bounded tier=quick bound="usize prefix parsing: sign none or '-', the first 17 digits of usize::MAX, 3 symbolic digits, then one symbolic non-digit ASCII byte"
+    /// kind=bounded tier=thorough bound="usize prefix parsing: sign none or '-', the first 17 digits of usize::MAX, 3 symbolic digits, then one symbolic non-digit ASCII byte"
     #[kani::unwind(26)]
     #[kani::stub(konst_kernel::string::non_char_boundary_panic, crate::hlib::stub_non_char_boundary_panic)]
     fn c12_prefix_near_usize(s) {
@@ -672,7 +672,7 @@ harness! {
 }
 
 harness! {
-    /// kind=bounded tier=quick bound="isize prefix parsing: sign none or '-', the first 16 digits of isize::MAX, 3 symbolic digits, then one symbolic non-digit ASCII byte"
+    /// kind=bounded tier=thorough bound="isize prefix parsing: sign none or '-', the first 16 digits of isize::MAX, 3 symbolic digits, then one symbolic non-digit ASCII byte"
     #[kani::unwind(25)]
     #[kani::stub(konst_kernel::string::non_char_boundary_panic, crate::hlib::stub_non_char_boundary_panic)]
     fn c12_prefix_near_isize(s) {
@@ -818,7 +818,7 @@ harness! {
 }
 
 harness! {
-    /// kind=bounded tier=quick bound="StdParser::<T>::parse_with, T in {u32,i32,u64,i64}: every valid UTF-8 string<=3 bytes"
+    /// kind=bounded tier=thorough bound="StdParser::<T>::parse_with, T in {u32,i32,u64,i64}: every valid UTF-8 string<=3 bytes"
     #[kani::unwind(7)]
     #[kani::stub(konst_kernel::string::non_char_boundary_panic, crate::hlib::stub_non_char_boundary_panic)]
     fn c12_has_parser_mid(s) {
@@ -836,7 +836,7 @@ harness! {
 }
 
 harness! {
-    /// kind=bounded tier=quick bound="StdParser::<T>::parse_with, T in {u128,i128,usize,isize}: every valid UTF-8 string<=3 bytes"
+    /// kind=bounded tier=thorough bound="StdParser::<T>::parse_with, T in {u128,i128,usize,isize}: every valid UTF-8 string<=3 bytes"
     #[kani::unwind(7)]
     #[kani::stub(konst_kernel::string::non_char_boundary_panic, crate::hlib::stub_non_char_boundary_panic)]
     fn c12_has_parser_big(s) {
